@@ -42,7 +42,7 @@ Definition shapes_statement : Prop :=
   (* ... and it stays that entry whatever fresh functions are decorated afterwards: in the registry of
      a whole case (any definitions before, any after) the callable found under the name of an
      accepted definition has exactly the promised site and injection *)
-  (forall l1 a l2, fresh (a_fn a) = true -> Forall (fun b => fresh (a_fn b) = true) l2 ->
+  (forall l1 a l2, fresh (a_fn a) = true -> Forall (fun b => fresh (a_fn b) = true /\ f_id (a_fn b) <> f_id (a_fn a)) l2 ->
      accepted (attempt_trace (registry_of l1) a) = true ->
      exists e, aget (a_name a) (reg_table (a_kind a) (registry_of (l1 ++ a :: l2))) = Some e /\
                e_fid e = f_id (a_fn a) /\ e_inject e = asks_server (f_params (a_fn a)) /\
@@ -58,10 +58,16 @@ Definition shapes_statement : Prop :=
              (has_ls_g g = true -> asks_server (g_first g) = true) /\
              (sig_ok g = true -> has_ls_g g = asks_server (g_first g))) /\
   (forall l1 a l2 g, f_params (a_fn a) = see g -> fresh (a_fn a) = true ->
-     Forall (fun b => fresh (a_fn b) = true) l2 -> accepted (attempt_trace (registry_of l1) a) = true ->
+     Forall (fun b => fresh (a_fn b) = true /\ f_id (a_fn b) <> f_id (a_fn a)) l2 -> accepted (attempt_trace (registry_of l1) a) = true ->
      exists e, aget (a_name a) (reg_table (a_kind a) (registry_of (l1 ++ a :: l2))) = Some e /\
                e_fid e = f_id (a_fn a) /\ e_inject e = has_ls_g g /\
                (exec_site e = Pool <-> a_thr a <> TNone) /\ (exec_site e = LoopTask <-> f_async (a_fn a) = true)) /\
+  (* thread() lands on exactly the registration it decorates - kind AND name: the callables of every
+     other function object stay as they are in BOTH tables, also under the same name in the other
+     table (features and commands are separate name spaces) *)
+  (forall r f r' f' res k n e, Features.step r (OpThread f) = (r', f', res) ->
+     (forall t m e0, f_reg f = Some (t, m) -> aget m (reg_table t r) = Some e0 -> e_fid e0 = f_id f) ->
+     e_fid e <> f_id f -> aget n (reg_table k r) = Some e -> aget n (reg_table k r') = Some e) /\
   (* the whole product {feature, command} x {sync, async} x {none, above, below} x 7 first-parameter
      shapes, evaluated: thread + coroutine is the only refused shape *)
   (length shape_attempts = 84%nat /\ forallb shape_site_ok shape_attempts = true /\
@@ -72,9 +78,29 @@ Proof.
   split; [exact shape_general|]. split; [exact shapes_in_context|].
   split; [intro g; split; [apply see_faithful|split; [apply inject_decision|split;
           [apply inject_only_if_asked_g|apply inject_iff_asked_g]]]|].
-  split; [exact shapes_in_context_g|]. destruct site_iff_thread_product as [A B].
+  split; [exact shapes_in_context_g|]. split; [exact thread_keeps|]. destruct site_iff_thread_product as [A B].
   split; [exact A|]. split; [exact B|exact inject_iff_asked_product].
 Qed.
+
+(* a feature and a command under the SAME name "x", every combination of thread decorators and both
+   orders of definition: each registered callable has the site of its own decoration *)
+Definition pair_attempts (t1 t2 : thr) (swap : bool) : list attempt :=
+  let a := mkattempt RFeature (Some [120]) ONone (mkfunc 1 false (First false ANone) false None) t1 in
+  let b := mkattempt RCommand (Some [120]) ONone (mkfunc 2 false (First true ANone) false None) t2 in
+  if swap then [b; a] else [a; b].
+Definition pair_ok (t1 t2 : thr) (swap : bool) : bool :=
+  let r := registry_of (pair_attempts t1 t2 swap) in
+  match aget (Some [120]) (features r), aget (Some [120]) (commands r) with
+  | Some e1, Some e2 =>
+      (e_fid e1 =? 1)%N && (e_fid e2 =? 2)%N &&
+      site_eqb (exec_site e1) (match t1 with TNone => LoopInline | _ => Pool end) &&
+      site_eqb (exec_site e2) (match t2 with TNone => LoopInline | _ => Pool end)
+  | _, _ => false
+  end.
+Example shared_name_pairs :
+  forallb (fun t1 => forallb (fun t2 => pair_ok t1 t2 false && pair_ok t1 t2 true) [TNone; TAbove; TBelow])
+          [TNone; TAbove; TBelow] = true.
+Proof. vm_compute. reflexivity. Qed.
 
 (* ------------------------------------------------------------------ delivery *)
 (* G: the class of (configuration, message sequence) for which the literal clause (h) is claimed *)
@@ -93,7 +119,7 @@ Definition C14_gen (G : cfg -> list call -> Prop) : Prop :=
                   h_inj h = e_inject e /\ h_site h = tsite_of (exec_site e))) /\
     (* (b) built-in first: reading the log from the left, a command's or a chained user feature's
            entry finds the built-in's entry for the same message before it *)
-    (forall l1 h l2, hlog s = l1 ++ h :: l2 -> needs_b (h_part h) (h_meth h) = true -> has_b (h_msg h) l1 = true) /\
+    (forall l1 h l2, hlog s = l1 ++ h :: l2 -> needs_b (bset c) (h_part h) (h_meth h) = true -> has_b (h_msg h) l1 = true) /\
     (* (c) once: no handler body starts twice for a message; started + waiting + cancelled before
            start = owed, at every moment of every schedule *)
     (forall q, (started q s <= 1)%nat) /\
@@ -101,7 +127,7 @@ Definition C14_gen (G : cfg -> list call -> Prop) : Prop :=
     (* (d) exactly once: with loop and pool idle, every handler that does not answer a request (the
            user's feature chained after a built-in, a notification handler) has started exactly as
            often as the code's plan for that message says - such handlers are never cancelled *)
-    (forall n k p, nth_error ks n = Some k -> fut_part k p = false -> quiescent s = true ->
+    (forall n k p, nth_error ks n = Some k -> fut_part c k p = false -> quiescent s = true ->
        started (n, p) s = owes c (spec_ws c (firstn n ks)) n k (n, p)) /\
     (* (e) already updated: the entries an event appends carry the workspace of that moment - the
            built-in sees what the earlier messages left, the user's function sees the workspace
@@ -123,7 +149,7 @@ Definition C14_gen (G : cfg -> list call -> Prop) : Prop :=
            the messages - the same for every registry and every set of raising user functions -
            and a built-in request is answered with the built-in's own result *)
     (ws s = spec_ws c ks /\ forall c', c_tokens c' = c_tokens c -> ws (run c' evs) = ws s) /\
-    (forall k i, w_shut (ws s) = false -> is_builtin_call k = true -> is_exec k = false -> req_id k = Some i ->
+    (forall k i, w_shut (ws s) = false -> isb c k = true -> is_exec k = false -> req_id k = Some i ->
        builtin_ok c (ws s) k = true -> out (recv c k s) = out (mid k s) ++ [OResult i (result_of k)]) /\
     (* (g) no handler: nothing is invoked, a request gets -32601; after `shutdown`: nothing at all *)
     (forall k, w_shut (ws s) = false -> has_handler c k = false ->
@@ -135,7 +161,7 @@ Definition C14_gen (G : cfg -> list call -> Prop) : Prop :=
     (* (h) the literal promise: at quiescence every such handler registered for a delivered message
            has run exactly once (`promised` counts the part in Spec.expect) *)
     (G c ks -> forall n k p, nth_error ks n = Some k -> delivered (spec_ws c (firstn n ks)) = true ->
-       fut_part k p = false -> quiescent s = true -> started (n, p) s = promised c k p).
+       fut_part c k p = false -> quiescent s = true -> started (n, p) s = promised c k p).
 
 Definition C14_statement : Prop := C14_gen (fun _ _ => True).
 Definition C14_partial_statement : Prop := C14_gen (fun c ks => all_ok c w0 ks = true).
@@ -143,13 +169,13 @@ Definition C14_partial_statement : Prop := C14_gen (fun c ks => all_ok c w0 ks =
 (* clauses (a)-(g) need no guard *)
 Lemma C14_core : forall G : cfg -> list call -> Prop,
     (forall c evs, G c (calls_of evs) -> forall n k p, nth_error (calls_of evs) n = Some k ->
-        delivered (spec_ws c (firstn n (calls_of evs))) = true -> fut_part k p = false ->
+        delivered (spec_ws c (firstn n (calls_of evs))) = true -> fut_part c k p = false ->
         quiescent (run c evs) = true -> started (n, p) (run c evs) = promised c k p) -> C14_gen G.
 Proof.
   intros G HG. split; [exact C14_shapes|]. intros c evs s ks.
   destruct (builtin_then_user_once c evs) as (B1 & B2 & B3 & B4).
   split; [intros h Hh; split; [exact (entries_are_owed c evs h Hh)|exact (entries_from_registry c evs h Hh)]|].
-  split; [exact (ordb_meaning _ B1)|]. split; [exact B2|]. split; [exact B3|]. split; [exact B4|].
+  split; [exact (ordb_meaning (bset c) _ B1)|]. split; [exact B2|]. split; [exact B3|]. split; [exact B4|].
   split; [intro e; exact (snapshots c evs e)|].
   split; [intros k Hs; exists (new_log c s (Recv k)); split;
           [exact (proj1 (step_log c s (Recv k)))|exact (delivery_exact c k s Hs)]|].
@@ -168,7 +194,7 @@ Definition did_change_name : name := Some s_did_change.
 Definition fn (i : N) (asy : bool) (p : fparams) : func := mkfunc i asy p false None.
 (* @server.feature("textDocument/didChange") def f(params): ... *)
 Definition cfg_refute : cfg :=
-  mkCfg (registry_of [mkattempt RFeature did_change_name ONone (fn 1 false (First false ANone)) TNone]) [] [] [].
+  mkCfg (registry_of [mkattempt RFeature did_change_name ONone (fn 1 false (First false ANone)) TNone]) [] [] [] [].
 (* initialize, then a didChange (with a content change) for a document that was never opened *)
 Definition evs_refute : list ev := [Recv (CInitialize 1 []); Recv (CDidChange 1 2%Z [4])].
 
@@ -193,7 +219,7 @@ Print Assumptions C14_refuted.
    entry of the user's function has the server injected) fails on initialize + didOpen *)
 Definition g_refute : gsig := mkG (First false AServer) false.
 Definition cfg_refute2 : cfg :=
-  mkCfg (registry_of [mkattempt RFeature (Some s_did_open) ONone (fn 1 false (see g_refute)) TNone]) [] [] [1].
+  mkCfg (registry_of [mkattempt RFeature (Some s_did_open) ONone (fn 1 false (see g_refute)) TNone]) [] [] [1] [].
 
 Theorem C14_refuted_unresolvable_hints :
   asks_server (g_first g_refute) = true /\ has_ls_g g_refute = false /\ sig_ok g_refute = false /\
@@ -215,7 +241,7 @@ Definition cfg_ex : cfg :=
            [mkattempt RFeature did_open_name ONone (fn 1 false (First true ANone)) TAbove;
             mkattempt RFeature did_change_name ONone (fn 2 true (First false AServer)) TNone;
             mkattempt RCommand (Some [99]) ONone (fn 3 false (First false ANone)) TNone])
-        [1] [] [1; 2].
+        [1] [] [1; 2] [].
 Definition evs_ex : list ev :=
   [Recv (CInitialize 1 [1]); Recv (CDidOpen 1 1%Z 1); Recv (CDidChange 1 2%Z [2]); Recv (CExecCmd 2 [99] 7);
    Recv (CDidChange 1 3%Z [3]); JobStart 0; TaskStep 0; JobFinish 0; LoopCb 0; TaskStep 1; LoopCb 1; Recv (CShutdown 3)].
@@ -236,6 +262,16 @@ Example C14_nonvacuous :
      (5%nat, PBuiltin, 0, OnLoop, false, [(1, (3%Z, 3))])] /\
   out s = [OResult 1 VObj; OResult 2 (VInt 3); OResult 3 VNull] /\
   started (1%nat, PUser) s = promised cfg_ex (CDidOpen 1 1%Z 1) PUser /\ promised cfg_ex (CDidOpen 1 1%Z 1) PUser = 1%nat.
+Proof. vm_compute. repeat split; reflexivity. Qed.
+
+(* a protocol class (protocol_cls=) that adds its own built-in "u/b", with an async user feature of
+   the same name: built-in first, then the user's feature, once; the built-in's reply (None) is sent *)
+Definition cfg_custom : cfg :=
+  mkCfg (registry_of [mkattempt RFeature (other_name [98]) ONone (fn 1 true (First true ANone)) TNone]) [] [] [1] [[98]].
+Example custom_builtin_once :
+  let s := run cfg_custom [Recv (COther (Some 4) [98] 0); TaskStep 0; LoopCb 0] in
+  map (fun h => (h_part h, h_fid h, h_inj h)) (hlog s) = [(PBuiltin, 0, false); (PUser, 1, true)] /\
+  out s = [OResult 4 VNull] /\ quiescent s = true /\ all_ok cfg_custom w0 [COther (Some 4) [98] 0] = true.
 Proof. vm_compute. repeat split; reflexivity. Qed.
 
 (* ------------------------------------------------------------------ the reference of the harness *)
